@@ -132,7 +132,7 @@ def main():
 
     # ------------------------------------------------------------ deductive part
     keys = props.contract_keys(prop)
-    z3_ms = 10000 if tier == "quick" else 30000
+    z3_ms = 20000 if tier == "quick" else 60000
     results = runner.run(keys, z3_ms=z3_ms, use_cvc5=True) if keys else []
     obligations = discharged = 0
     backends = {}
